@@ -107,7 +107,7 @@ def to_swc(
             if not c.isspace():
                 yield f"# {c.lstrip()}\n"
             else:
-                yield "#"
+                yield "#\n"
 
     names = get_names(names)
     cols = names.cols() + (list(extra_cols) if extra_cols is not None else [])
@@ -182,7 +182,7 @@ def parse_swc(
     re_swc = re.compile(rf"^\s*{re_swc_cols_str}\s*([\s+-.0-9]*)$")
 
     last_group = 7 + len(extras) + 1
-    ignored_comment = f"# {' '.join(names.cols())}"
+    ignored_comment = f" {' '.join(names.cols())}"
     flag = True
 
     comments = []
